@@ -11,7 +11,7 @@ from pyverif.image import project_image
 def main():
     run = Run("C09")
     sizes = lambda b: [b["L"]] * b["NC"]
-    step = 3 if run.thorough else 12
+    step = 10 if run.thorough else 12      # (thorough: a tenth of the much larger enumeration - every file is decoded by the independent codec)
     beh_w = emit(run, "MC_BigWig", ["MC_BigWig_t1.cfg", "MC_BigWig_t2.cfg"] if run.thorough else ["MC_BigWig_q1.cfg", "MC_BigWig_q2.cfg"])
     beh_b = emit(run, "MC_BigBed", ["MC_BigBed_t1.cfg", "MC_BigBed_t2.cfg"] if run.thorough else ["MC_BigBed_q1.cfg", "MC_BigBed_q2.cfg"])
     beh_w = beh_w[run.seed % step::step] + emit_sim(run, "MC_BigWig", "MC_BigWig_deep.cfg", 2000 if run.thorough else 250)
